@@ -8,7 +8,7 @@ from gen import members, sweep
 
 RULE = ("quick: every group for n<=3 x all 2^n sign vectors x all configurations; all 2295 four-qubit groups x 2 sign "
         "vectors x 1 drawn configuration; n=5: 93 classes x 6 configurations x 3 constructed members; n=6: 760 classes x "
-        "7 configurations x 2 members; the canonical generators of the graph stored in every table entry (all 5962); plus Hypothesis cases over input formats, generator bases and Clifford-circuit "
+        "7 configurations x 2 members; the canonical generators of the graph stored in every table entry (all 5962); product states and single Bell pairs on 4..6 qubits in dense generating sets with 3-4 sign vectors each (32 / 300 members of the product class, a quarter of that per Bell-pair class; half of them in a near-uniform random basis); plus Hypothesis cases over input formats, generator bases and Clifford-circuit "
         "inputs. thorough: every group n<=4 x ALL sign vectors x all configurations, every five-qubit group x 1 sign "
         "vector x all 6 configurations, n=6: 760 x 7 x 6 members, 16 x 300 Hypothesis cases. A case is one call of "
         "get_preparation_circuit; the input format rotates through Pauli strings (with/without sign), X/Z matrices "
@@ -152,6 +152,28 @@ def shard(arg):
                     i += 1
                     run_subject(rep, n, name, g2, fmts[i % len(fmts)], meta, sample=(i % 3000 == 1), keep=held)
             verify_held(rep, held)
+    elif kind == "low-entanglement":
+        # product states and single Bell pairs (+ product qubits) on 4..6 qubits, written with DENSE generating sets (products of the
+        # single-qubit stabilizers, heaviest elements) and several sign vectors each: a class-stratified sweep gives these two or three
+        # members like any other class, although they are what a register mostly holds
+        _, n, part, parts, k, seed = arg
+        cfgs = sweep.configs(n)
+        low = [o for o in members.orbit_reps(n) if bin(o).count("1") <= 1]
+        i = 0
+        for o in low:
+            for j in range(k if o == 0 else max(1, k // 4)):
+                i += 1
+                if i % parts != part:
+                    continue
+                rng = fw.rng_for("c01low", seed, n, o, j)
+                gens, info = members.member(n, o, rng, signs="plus", mix=["uniform", "uniform", "heavy", True][j % 4])
+                held = []
+                name = cfgs[(i // parts) % len(cfgs)]
+                for sv in {rng.randrange(1 << n), 1 << rng.randrange(n), (1 << n) - 1, rng.randrange(1 << n)}:
+                    g2 = members.apply_signs(gens, sv)
+                    fmts = sweep.applicable_formats(g2, n)
+                    run_subject(rep, n, name, g2, fmts[(i + sv) % len(fmts)], {"source": "low-entanglement class in a dense basis", "orbit": o}, sample=(i == 3 and sv & 1))
+                verify_held(rep, held)
     elif kind == "graphs":
         # the graph input format: canonical generators of graph states, all graphs n<=4, drawn for n=5,6
         _, n, gids, seed = arg
@@ -237,7 +259,11 @@ def run(ctx):
             args.append(("table-graphs", n, name, chunk, ctx.seed))
     for i in range(16):
         args.append(("hyp", ctx.seed * 1000 + i, 60 if q else 600, dl))
-    order = {"enum": 0, "member": 1, "hyp": 2, "graphs": 3, "table-graphs": 1, "named": 1}
+    for n in (6, 5, 4):
+        parts = {4: 1, 5: 2, 6: 8}[n]
+        for part in range(parts):
+            args.append(("low-entanglement", n, part, parts, 32 if q else 300, ctx.seed))
+    order = {"enum": 0, "member": 1, "hyp": 2, "graphs": 3, "table-graphs": 1, "named": 1, "low-entanglement": 1}
     args.sort(key=lambda a: (order[a[0]], -a[1] if a[0] != "hyp" else 0))
     rep = fw.run_shards(ctx, "props.c01", "shard", args)
     rep.extra["exhaustive"] = False
